@@ -35,8 +35,13 @@ def _worker(task):
     'run': follow a decision trace, then depth-first for at most `timeout` seconds; 'twin': stop at first finding.
     Pending states come back as decision traces (frontier) for re-dispatch."""
     ll, entry, mode, trace, timeout, max_steps, split_target = task
+    hang = max_steps < 0
+    max_steps = abs(max_steps)
+    import faulthandler
+    import signal
     import llir
     import llsym
+    faulthandler.register(signal.SIGUSR1, all_threads=False)
     t0 = time.time()
     mod = _MODCACHE.get(ll)
     if mod is None:
@@ -45,6 +50,7 @@ def _worker(task):
         mod = llir.Module().parse(ll)
         _MODCACHE[ll] = mod
     ex = llsym.Executor(mod, replay=trace)
+    ex.hang_is_finding = hang
     if mode == 'twin':
         ex.stop_after_findings = 1
     try:
@@ -68,7 +74,7 @@ def write_model(path, model):
             f.write('%s %s\n' % (k, v))
 
 
-def native_run(binary, model, scratch, timeout=60):
+def native_run(binary, model, scratch, timeout=30):
     fd, p = tempfile.mkstemp(dir=scratch, suffix='.in')
     os.close(fd)
     write_model(p, model)
@@ -119,6 +125,8 @@ class Check:
             job.setdefault('timeout', 300)
             job.setdefault('slice', 25)
             job.setdefault('max_steps', 20_000_000)
+            if job.get('hang_is_finding'):
+                job['max_steps'] = -abs(job['max_steps'])
             job['tag'] = '%s_%d' % (re.sub(r'\W', '_', job['name']), ji)
             harness = os.path.join(VERIF, 'harness', job['harness'])
             job['ll'] = cbuild.link_harness_ir(self.scratch, lib, harness, job['defines'], job['tag'])
@@ -197,7 +205,12 @@ class Check:
         # findings: replay natively
         validated = 0
         nb = None
+        seen_keys = {}
         for f in findings:
+            key = (f['kind'], re.sub(r'%\d+', '%', f['msg']))
+            seen_keys[key] = seen_keys.get(key, 0) + 1
+            if seen_keys[key] > 2:
+                continue
             if f['kind'] in ('limit', 'unknown'):
                 if not job.get('allow_inconclusive'):
                     self.errors.append('%s: inconclusive path: %s' % (job['name'], f['msg']))
@@ -245,6 +258,8 @@ class Check:
         reproduced = False
         if f['kind'] == 'assert':
             reproduced = f['msg'] in nr['fails'] or nr['san'] is not None
+        elif f['kind'] == 'hang':
+            reproduced = nr['rc'] == -9
         elif f['kind'] in ('mem', 'uninit', 'abort', 'ub'):
             reproduced = nr['san'] is not None
             if not reproduced and job.get('trust_mem'):
